@@ -23,10 +23,11 @@ func (fv *FuncVC) assumeGlobalInvs(g *ssa.Global, t Term) {
 	if !fv.P.globalProtected(g) {
 		return
 	}
-	if fv.Fn.Name() == "init" && fv.Fn.Pkg == g.Pkg {
-		return // init establishes it
-	}
+	ownInit := isInitFn(fv.Fn) && fv.Fn.Pkg == g.Pkg
 	for _, gi := range fv.P.CS.Globals {
+		if ownInit && !gi.Assumed {
+			continue // init establishes it
+		}
 		if gi.Pkg != g.Pkg.Pkg.Path() || !mentionsIdent(gi.E, g.Name()) {
 			continue
 		}
@@ -41,18 +42,22 @@ func (fv *FuncVC) assumeGlobalInvs(g *ssa.Global, t Term) {
 		cl := &Clause{Kind: "global", Src: gi.Src, File: gi.File, Line: gi.Line}
 		fv.assert(env.evalBool(gi.E, cl))
 		fv.inGlobalInv = false
-		fv.trustedUse["global invariant "+strings.TrimSpace(gi.Src)+" (checked on init; no other function stores to the variable)"] = true
+		if gi.Assumed {
+			fv.trustedUse["configuration assumption: "+strings.TrimSpace(gi.Src)+" (and the setting is not changed while a call runs)"] = true
+		} else {
+			fv.trustedUse["global invariant "+strings.TrimSpace(gi.Src)+" (checked on init; no other function stores to the variable)"] = true
+		}
 	}
 }
 
 // checkGlobalInvsAtExit: init functions must establish the invariants of the
 // globals of their package.
 func (fv *FuncVC) checkGlobalInvsAtExit(pos token.Pos) {
-	if fv.Fn.Name() != "init" || fv.Fn.Pkg == nil {
+	if !isInitFn(fv.Fn) || fv.Fn.Pkg == nil {
 		return
 	}
 	for _, gi := range fv.P.CS.Globals {
-		if gi.Pkg != fv.Fn.Pkg.Pkg.Path() {
+		if gi.Pkg != fv.Fn.Pkg.Pkg.Path() || gi.Assumed {
 			continue
 		}
 		env := fv.newEnv(fv.cur, fv.entry)
@@ -90,4 +95,8 @@ func (fv *FuncVC) applyAxioms() {
 
 func (e *Env) ghostBuiltin(x ECall) (Term, bool) {
 	return Term{}, false
+}
+
+func isInitFn(f *ssa.Function) bool {
+	return f.Name() == "init" || strings.HasPrefix(f.Name(), "init#")
 }
